@@ -19,7 +19,7 @@
    changes, all other elements and their order stay"). *)
 From Coq Require Import List ZArith Bool Arith Lia.
 From SC Require Import Base.Res Base.PyList Inst.Heap Inst.ClassTable Inst.Model Inst.Canon Inst.Abs
-  Inst.SpecHelpers Inst.ElemProofs Inst.RefineProofs Inst.CopyProofs Inst.ElemRefine Inst.ElemRefine2 Inst.ElemRefine3 Inst.ElemRefine4 Inst.ElemRefine5.
+  Inst.SpecHelpers Inst.ElemProofs Inst.RefineProofs Inst.CopyProofs Inst.ElemRefine Inst.ElemRefine2 Inst.ElemRefine3 Inst.ElemRefine4 Inst.ElemRefine5 Inst.ElemRefineGuard.
 Import ListNotations.
 Open Scope nat_scope.
 
@@ -411,6 +411,131 @@ Proof.
   exact (without_item_set_inplace_refines ct h0 l a c d k sp s lc xs ity Hl Hc Ha Hd Hfz Hni Hty Hfld Hlc Hxs Hflat Hsh voi Hv).
 Qed.
 
+(* The nine refinement theorems above under ONE computable side condition
+   (Inst/ElemRefineGuard.v): elem_guard ct s l a kind = true says that l is a flat instance of an
+   unfrozen class without invalidated_by whose attribute a is declared List / Dict / Set and
+   holds, unshared, a list / dict / set of scalars; plain_items: no item preparer and no spec
+   element type; proper_elems: no sentinel object inside the list; by_value_ok / set_key_free:
+   see above.  refines_spec: the model run and spec_helper agree on the result state (the
+   receiver itself is returned) and on the error class, and an error leaves the heap alone.
+   STILL MISSING for the full statement: copy-on-write calls (_inplace=False), item preparers,
+   keywords / spec elements, nested receivers, shared containers, update_/transform_<item> on
+   dicts and sets, container missing (created on the fly), classes with invalidated_by. *)
+Theorem C06_elem_helpers_refine_guarded_partial : forall ct h0 s l a,
+  (* lists *)
+  (elem_guard ct s l a KList = true ->
+     (forall idx v ins, plain_items ct s l a = true -> vscalar v = true ->
+        (idx = VMissing \/ exists i, idx = VInt i) ->
+        refines_spec ct h0 s l (HWithItem a) (mkh [v] true true idx ins None None [] None)
+                     (SWithItem a) (mkah [abs0 v] true true (abs0 idx) ins None None [] None)) /\
+     (forall voi bi, nonref voi = true ->
+        refines_spec ct h0 s l (HWithoutItem a) (mkh [voi] true true VMissing false bi None [] None)
+                     (SWithoutItem a) (mkah [abs0 voi] true true AMissing false bi None [] None)) /\
+     (forall voi fo bi, proper_elems s l a = true -> fail_at s = None ->
+        nonref voi = true -> is_missing voi = false ->
+        match fo with Some f => pool_fn f = true | None => True end ->
+        by_value_ok ct s l a voi bi = true ->
+        refines_spec ct h0 s l (HTransformItem a) (mkh [voi] true true VMissing false bi None [] fo)
+                     (STransformItem a) (mkah [abs0 voi] true true AMissing false bi None [] fo)) /\
+     (forall voi v bi, proper_elems s l a = true -> plain_items ct s l a = true ->
+        nonref voi = true -> is_missing voi = false -> nonref v = true ->
+        vscalar v || by_value_ok ct s l a voi bi = true ->
+        refines_spec ct h0 s l (HUpdateItem a) (mkh [voi; v] true true VMissing false bi None [] None)
+                     (SUpdateItem a) (mkah [abs0 voi; abs0 v] true true AMissing false bi None [] None))) /\
+  (* dicts *)
+  (elem_guard ct s l a KDict = true ->
+     (forall key v, plain_items ct s l a = true -> nonref key = true -> vscalar v = true ->
+        refines_spec ct h0 s l (HWithItem a) (mkh [key; v] true true VMissing false None None [] None)
+                     (SWithItem a) (mkah [abs0 key; abs0 v] true true AMissing false None None [] None)) /\
+     (forall key, nonref key = true ->
+        refines_spec ct h0 s l (HWithoutItem a) (mkh [key] true true VMissing false None None [] None)
+                     (SWithoutItem a) (mkah [abs0 key] true true AMissing false None None [] None))) /\
+  (* sets *)
+  (elem_guard ct s l a KSet = true ->
+     (forall v, plain_items ct s l a = true -> vscalar v = true ->
+        set_key_free ct (list_of s l a) v = true ->
+        refines_spec ct h0 s l (HWithItem a) (mkh [v] true true VMissing false None None [] None)
+                     (SWithItem a) (mkah [abs0 v] true true AMissing false None None [] None)) /\
+     (forall voi, nonref voi = true ->
+        refines_spec ct h0 s l (HWithoutItem a) (mkh [voi] true true VMissing false None None [] None)
+                     (SWithoutItem a) (mkah [abs0 voi] true true AMissing false None None [] None))).
+Proof.
+  intros ct h0 s l a. split; [|split]; intro G.
+  - split; [|split; [|split]].
+    + intros idx v ins P Hv Hi. now apply with_item_list_guarded.
+    + intros voi bi Hv. now apply without_item_list_guarded.
+    + intros voi fo bi Pe Hfa Hv Hm Hfo Hbv. now apply transform_item_list_guarded.
+    + intros voi v bi Pe P Hv Hm Hnv Hbv. now apply update_item_list_guarded.
+  - split.
+    + intros key v P Hk Hv. now apply with_item_dict_guarded.
+    + intros key Hk. now apply without_item_dict_guarded.
+  - split.
+    + intros v P Hv Hkf. now apply with_item_set_guarded.
+    + intros voi Hv. now apply without_item_set_guarded.
+Qed.
+
+(* non-vacuity of the guard: A(xs=[1, 0, 1, 0], m={'': 0, 'a7': 1}, t={2, 0}) with
+   xs : List[int], m : Dict[str, int], t : Set[int] satisfies every side condition, and the
+   model does on it what the plain container operation does: remove the first 0; remove at
+   index -1; identity-transform at index 1; assign an existing key (position kept) and a new one
+   (last); delete a key; add a present / an absent element; remove; and the documented errors *)
+Example C06_guard_examples :
+  let run hp h := match run_helper ex_ct 0 hp h ex_state with
+                  | (Ok _, s') => SOk (nth 1 (heap s') (OList []), nth 2 (heap s') (OList []), nth 3 (heap s') (OList []))
+                  | (Err e, _) => SErr e end in
+  let L := OList [VInt 1; VInt 0; VInt 1; VInt 0] in
+  let D := ODict [(VStr 0, VInt 0); (VStr 7, VInt 1)] in
+  let S := OSet [VInt 2; VInt 0] in
+  elem_guard ex_ct ex_state 0 1 KList = true /\ elem_guard ex_ct ex_state 0 2 KDict = true /\
+  elem_guard ex_ct ex_state 0 3 KSet = true /\
+  plain_items ex_ct ex_state 0 1 = true /\ plain_items ex_ct ex_state 0 2 = true /\ plain_items ex_ct ex_state 0 3 = true /\
+  proper_elems ex_state 0 1 = true /\
+  by_value_ok ex_ct ex_state 0 1 (VInt 0) None = true /\ by_value_ok ex_ct ex_state 0 1 (VBool true) (Some true) = true /\
+  set_key_free ex_ct (list_of ex_state 0 3) (VInt 5) = true /\
+  run (HWithoutItem 1) (mkh [VInt 0] true true VMissing false (Some false) None [] None)
+    = SOk (OList [VInt 1; VInt 1; VInt 0], D, S) /\
+  run (HWithoutItem 1) (mkh [VInt (-1)] true true VMissing false (Some true) None [] None)
+    = SOk (OList [VInt 1; VInt 0; VInt 1], D, S) /\
+  run (HWithoutItem 1) (mkh [VInt 7] true true VMissing false None None [] None) = SErr ValueErr /\
+  run (HWithoutItem 1) (mkh [VInt 4] true true VMissing false (Some true) None [] None) = SErr IndexErr /\
+  run (HTransformItem 1) (mkh [VInt 1] true true VMissing false (Some true) None [] (Some (FAddInt 5)))
+    = SOk (OList [VInt 1; VInt 5; VInt 1; VInt 0], D, S) /\
+  run (HUpdateItem 1) (mkh [VInt 0; VInt 9] true true VMissing false None None [] None)
+    = SOk (OList [VInt 1; VInt 9; VInt 1; VInt 0], D, S) /\
+  run (HUpdateItem 1) (mkh [VInt 0; VStr 3] true true VMissing false None None [] None) = SErr ValueErr /\
+  run (HWithItem 2) (mkh [VStr 0; VInt 4] true true VMissing false None None [] None)
+    = SOk (L, ODict [(VStr 0, VInt 4); (VStr 7, VInt 1)], S) /\
+  run (HWithItem 2) (mkh [VStr 8; VInt 0] true true VMissing false None None [] None)
+    = SOk (L, ODict [(VStr 0, VInt 0); (VStr 7, VInt 1); (VStr 8, VInt 0)], S) /\
+  run (HWithItem 2) (mkh [VInt 8; VInt 0] true true VMissing false None None [] None) = SErr ValueErr /\
+  run (HWithoutItem 2) (mkh [VStr 0] true true VMissing false None None [] None)
+    = SOk (L, ODict [(VStr 7, VInt 1)], S) /\
+  run (HWithoutItem 2) (mkh [VStr 9] true true VMissing false None None [] None) = SErr KeyErr /\
+  run (HWithItem 3) (mkh [VInt 0] true true VMissing false None None [] None) = SOk (L, D, S) /\
+  run (HWithItem 3) (mkh [VInt 5] true true VMissing false None None [] None)
+    = SOk (L, D, OSet [VInt 2; VInt 0; VInt 5]) /\
+  run (HWithoutItem 3) (mkh [VInt 0] true true VMissing false None None [] None) = SOk (L, D, OSet [VInt 2]) /\
+  run (HWithoutItem 3) (mkh [VInt 1] true true VMissing false None None [] None) = SErr ValueErr.
+Proof. vm_compute. repeat split. Qed.
+
+(* WHY by_value_ok IS NEEDED — a finding.  xs : List[int] holding [1, 0, 1, 0];
+   transform_<item>(True, lambda x: x): True has the element type, so the target is addressed
+   BY VALUE; True == 1 finds position 0.  "Replace by transformed value" (spec_change_item)
+   transforms the addressed element: f(1) = 1, the list stays [1, 0, 1, 0].  The model -- like
+   SequenceMutator._extractor, which returns (index, value_or_index) -- hands the ARGUMENT to
+   the value procedure: the list becomes [True, 0, 1, 0].  Same for update_<item>(False) without
+   a new value and for sets.  Reproduced on the implementation:
+   A(xs=[1, 0, 2]).transform_x(True, lambda x: x).xs == [True, 0, 2]. *)
+Example C06_by_value_transforms_argument_refuted :
+  elem_guard ex_ct ex_state 0 1 KList = true /\ proper_elems ex_state 0 1 = true /\
+  by_value_ok ex_ct ex_state 0 1 (VBool true) None = false /\
+  ~ refines_spec ex_ct [] ex_state 0 (HTransformItem 1) (mkh [VBool true] true true VMissing false None None [] (Some FId))
+                 (STransformItem 1) (mkah [ABool true] true true AMissing false None None [] (Some FId)).
+Proof.
+  split; [vm_compute; reflexivity|]. split; [vm_compute; reflexivity|]. split; [vm_compute; reflexivity|].
+  unfold refines_spec. vm_compute. intros [_ H]. discriminate H.
+Qed.
+
 (* non-vacuity: falsy elements, equal elements at several positions, negative index *)
 Example C06_examples :
   let ct := @nil cls in
@@ -445,4 +570,7 @@ Print Assumptions C06_dict_with_item_refines_partial.
 Print Assumptions C06_dict_without_item_refines_partial.
 Print Assumptions C06_set_with_item_refines_partial.
 Print Assumptions C06_set_without_item_refines_partial.
+Print Assumptions C06_elem_helpers_refine_guarded_partial.
+Print Assumptions C06_guard_examples.
+Print Assumptions C06_by_value_transforms_argument_refuted.
 Print Assumptions C06_examples.
